@@ -84,6 +84,8 @@ pub struct Sim {
     pub preempt_permille: u32,
     pub quanta: u64,
     pub turns_total: u64,
+    /// clients read concurrently while the server sleeps inside a turn (off = slow readers)
+    pub auto_drain: bool,
 }
 
 fn on_yield(site_id: u32, a: u64, b: u64) {
@@ -134,7 +136,7 @@ impl Sim {
         g().disk_prefix = base_dir.as_bytes().to_vec();
         world::log_event(&format!("sim seed {} entropy {}", seed, entropy_seed));
         Sim { seed, sched_rng: xo_seed(seed ^ 0x5C4ED), instances: Vec::new(), clients: Vec::new(), base_dir,
-              bg_eager: true, preempt_permille: 0, quanta: 0, turns_total: 0 }
+              bg_eager: true, preempt_permille: 0, quanta: 0, turns_total: 0, auto_drain: true }
     }
 
     pub fn cleanup(&self) { let _ = std::fs::remove_dir_all(&self.base_dir); }
@@ -378,7 +380,13 @@ impl Sim {
             if guard > 200_000 { return TurnOutcome::Hang; }
             if self.bg_eager { if !self.run_bg(inst) { return TurnOutcome::Hang; } }
             match g().threads[server].state {
-                TState::Sleeping { until } => { world::set_mono(until); continue; }
+                TState::Sleeping { until } => {
+                    // the server sleeps (idle back-off, or write back-off because a client's socket is
+                    // full): time passes, and prompt clients read what has been sent to them so far
+                    if self.auto_drain { for c in 0..self.clients.len() { self.read(c); } }
+                    world::set_mono(until);
+                    continue;
+                }
                 TState::Futex { deadline, .. } => {
                     // blocked on a lock or condvar: somebody else of this instance must run
                     let others: Vec<usize> = self.bg_threads(inst).into_iter().filter(|&t| self.is_runnable(t)).collect();
